@@ -680,5 +680,64 @@ theorem authFirst_of_G (auth : H) (ga : String) (on : String → Bool) (hon : on
     | route _ _ _ _ _ => simp [authFirstG] at h
     | noRoute _ => simp [authFirstG] at h
 
+theorem findRoute_mem {routes : List Route} {method path : String} {r : Route} {ps : List String}
+    (h : findRoute routes method path = some (r, ps)) : r ∈ routes := by
+  unfold findRoute at h
+  simp only at h
+  generalize hms : (routes.filterMap fun r =>
+    if r.method = method then (matchSegs (segs r.path) (segs path)).map (fun ps => (r, ps)) else none) = ms at h
+  have hmem : (r, ps) ∈ ms := by
+    split at h
+    · rename_i m tl hf
+      simp only [Option.some.injEq] at h
+      have : m ∈ ms.filter (fun m => m.2.length = 0) := by rw [hf]; exact List.mem_cons_self
+      rw [← h]
+      exact (List.mem_filter.mp this).1
+    · exact List.mem_of_mem_head? h
+  rw [← hms] at hmem
+  obtain ⟨r', hr', hq⟩ := List.mem_filterMap.mp hmem
+  split at hq
+  · cases hm : matchSegs (segs r'.path) (segs path) with
+    | none => simp [hm] at hq
+    | some ps' =>
+      simp only [hm, Option.map_some, Option.some.injEq, Prod.mk.injEq] at hq
+      rw [← hq.1]; exact hr'
+  · cases hq
+
+theorem dispatch_route {s : Engine} {method path : String} {r : Route} {ps : List String}
+    (h : dispatch s method path = .route r ps) : r ∈ s.routes := by
+  unfold dispatch at h
+  cases hf : findRoute s.routes method path with
+  | some q =>
+    obtain ⟨r', ps'⟩ := q
+    simp only [hf, Dispatch.route.injEq] at h
+    rw [← h.1]; exact findRoute_mem hf
+  | none =>
+    simp only [hf] at h
+    split at h <;> cases h
+
+/-- a redirect is issued exactly when no route matches and the trailing-slash sibling does -/
+theorem dispatch_redirect_iff (s : Engine) (method path : String) :
+    (∃ c, dispatch s method path = .redirect c) ↔
+      (findRoute s.routes method path = none ∧ tsrApplies s method path = true) := by
+  unfold dispatch
+  cases hf : findRoute s.routes method path with
+  | some q => obtain ⟨r', ps'⟩ := q; simp
+  | none =>
+    by_cases ht : tsrApplies s method path = true
+    · simp [ht]
+    · simp [ht]
+
+theorem dispatch_noRoute {s : Engine} {method path : String} {chain : List H}
+    (h : dispatch s method path = .noRoute chain) : chain = s.allNoRoute := by
+  unfold dispatch at h
+  cases hf : findRoute s.routes method path with
+  | some q => obtain ⟨r', ps'⟩ := q; simp [hf] at h
+  | none =>
+    simp only [hf] at h
+    split at h
+    · cases h
+    · simp only [Dispatch.noRoute.injEq] at h; exact h.symm
+
 end Gin
 end Piko
